@@ -211,18 +211,19 @@ impl<Db: Database> StorageManager<Db> {
             ))),
         }?;
 
-        // update the cache
-        if let Some(cache) = &self.cache {
-            cache.batch_put(&records).await;
-        }
-
         // Write to the database
         self.tic_toc(
             METRIC_WRITE_TIME,
-            self.db.batch_set(records, DbSetState::TransactionCommit),
+            self.db
+                .batch_set(records.clone(), DbSetState::TransactionCommit),
         )
         .await?;
         self.increment_metric(METRIC_BATCH_SET);
+
+        // update the cache, only once the records have been written to the database
+        if let Some(cache) = &self.cache {
+            cache.batch_put(&records).await;
+        }
         Ok(num_records as u64)
     }
 
@@ -264,14 +265,15 @@ impl<Db: Database> StorageManager<Db> {
             return Ok(());
         }
 
-        // update the cache
+        // write to the database
+        self.tic_toc(METRIC_WRITE_TIME, self.db.set(record.clone()))
+            .await?;
+        self.increment_metric(METRIC_SET);
+
+        // update the cache, only once the record has been written to the database
         if let Some(cache) = &self.cache {
             cache.put(&record).await;
         }
-
-        // write to the database
-        self.tic_toc(METRIC_WRITE_TIME, self.db.set(record)).await?;
-        self.increment_metric(METRIC_SET);
         Ok(())
     }
 
@@ -288,18 +290,18 @@ impl<Db: Database> StorageManager<Db> {
             return Ok(());
         }
 
-        // update the cache
-        if let Some(cache) = &self.cache {
-            cache.batch_put(&records).await;
-        }
-
         // Write to the database
         self.tic_toc(
             METRIC_WRITE_TIME,
-            self.db.batch_set(records, DbSetState::General),
+            self.db.batch_set(records.clone(), DbSetState::General),
         )
         .await?;
         self.increment_metric(METRIC_BATCH_SET);
+
+        // update the cache, only once the records have been written to the database
+        if let Some(cache) = &self.cache {
+            cache.batch_put(&records).await;
+        }
         Ok(())
     }
 
